@@ -94,7 +94,21 @@ sensitivity)
     else
       kind="-"
     fi
-    if [ $r -eq 1 ] && [ "$rr" = "1" ]; then verdict="CAUGHT"; else verdict="MISSED(exit=$r replay=$rr)"; rc=1; fi
+    if [ $r -eq 1 ] && [ "$rr" = "1" ]; then verdict="CAUGHT"; else
+      verdict="MISSED(exit=$r replay=$rr)"; rc=1
+      # does the change break (and do we catch it under) another claimed property?
+      if [ -n "${SENS_TRY_OTHERS:-1}" ]; then
+        for other in C16 C14 C04 C05 C12 C13; do
+          [ "$other" = "$prop" ] && continue
+          o2="$(VERIF_MAX_VIOLATIONS=40 VERIF_REPO_OVERRIDE="$WT" VERIF_TARGET_DIR="$SIM/target/mut" VERIF_OUT="$OUTD" "$HERE/check" "$other" quick 2>&1)"; r2=$?
+          if [ $r2 -eq 1 ]; then
+            rp2="$(echo "$o2" | grep -m1 '^VIOLATION' | sed -n 's/.*replay=\(.*\)$/\1/p')"
+            k2="$(python3 -c 'import json,sys; e=json.load(open(sys.argv[1])).get("expected",{}); print(e.get("signature","?"))' "$rp2" 2>/dev/null)"
+            verdict="MISSED-under-$prop;CAUGHT-under-$other"; kind="$k2"; break
+          fi
+        done
+      fi
+    fi
     printf "%-34s %-4s %-22s %4ss  %s\n" "$name" "$prop" "$verdict" "$((t1-t0))" "$kind"
     [ "$verdict" = "CAUGHT" ] || echo "$out" | tail -5
     git -C /repo worktree remove --force "$WT"; rm -rf "$OUTD"
